@@ -2,6 +2,7 @@ package mon
 
 import (
 	"fmt"
+	"sync"
 
 	"github.com/ChrisTrenkamp/xsel"
 
@@ -19,7 +20,7 @@ func init() {
 	Register(&Monitor{
 		ID: "C03",
 		Rule: "per generated document: random multi-step paths over all 13 axes from random context nodes, overlap makers (//x/.., //x/ancestor::*, //x/preceding::*/@*, ancestor::*/@*, //x/namespace::*, reverse axis followed by forward steps), unions of overlapping and reverse-ordered operands incl. node-set variables held in reverse order and as sub-slices; " +
-			"oracle on every returned slice: no cursor identity twice, every cursor reachable from the queried root, Pos() strictly increasing or strictly decreasing, strictly increasing when the AST has no reverse axis or its top operator is '|'; also set-equal to the reference model; " +
+			"oracle on every returned slice: no cursor identity twice, every cursor reachable from the queried root, Pos() strictly increasing or strictly decreasing, strictly increasing when the AST has no reverse axis or its top operator is '|'; also set-equal to the reference model; every tenth case queries two trees (a second document, or a clone of the first with coinciding positions) from 8 goroutines at once with //-paths and requires every result to consist of nodes of the queried tree and to equal the result obtained alone; " +
 			"union laws on library results only: A|B == B|A and (A|B)|C == A|(B|C) as sequences, A|A set-equal A and ascending, count(A|B) = count(A)+count(B)-|A∩B| (counts from count() queries, intersection by identity). distinct_nontrivial = distinct (document shape, expression) with >= 2 result nodes",
 		Assumptions: []string{"descending order is allowed for results of expressions that use a reverse axis (the existing tests pin it)", "a bare variable reference as the whole expression is not generated (it must evaluate to exactly the bound value, C11)"},
 		NCases:      func(tier string) int { return map[string]int{"quick": 3000, "thorough": 100000}[tier] },
@@ -217,6 +218,92 @@ func c03Case(r *evid.Run, tier string, idx int, g *rng.R) {
 		run("overlap", d.Root, rng.Pick(g, makers))
 		deep := rng.Pick(g, d.All)
 		run("overlap", deep, xast.Rel(xast.S("ancestor", xast.AnyT()), xast.Step{Axis: "attribute", Test: xast.AnyT(), Abbrev: true}))
+	}
+	// several documents queried at the same time (every tenth case): whatever other trees are being
+	// queried elsewhere in the process, a result holds nodes of the queried tree only, in order, and
+	// equals the result obtained alone
+	if idx%10 == 4 {
+		d2 := adoc.Generate(g, o)
+		if g.Bool() {
+			d2 = d.Clone() // same shape, other tree: positions coincide
+		}
+		if w2, err2 := newWorld(d2); err2 == nil {
+			type task struct {
+				w    *world
+				src  string
+				want []xsel.Cursor
+			}
+			var tasks []task
+			for _, ww := range []*world{w, w2} {
+				el2, at2, _ := vocab(ww.d)
+				exprs := []xast.Expr{xast.Abs(xast.DS(), xast.S("child", xast.AnyT())), xast.Abs(xast.DS(), xast.S("child", xast.NodeT())), xast.Abs(xast.S("descendant-or-self", xast.NodeT())),
+					xast.Abs(xast.DS(), xast.Step{Axis: "attribute", Test: xast.AnyT(), Abbrev: true}), xast.Abs(xast.DS(), xast.S("child", xast.AnyT()), xast.S("following", xast.AnyT()))}
+				for k, q := range el2 {
+					if k < 4 {
+						exprs = append(exprs, xast.Abs(xast.DS(), xast.Step{Axis: "child", Test: xast.NameT(q.Prefix, q.Local), Abbrev: true}))
+					}
+				}
+				for k, q := range at2 {
+					if k < 2 {
+						exprs = append(exprs, xast.Abs(xast.DS(), xast.Step{Axis: "attribute", Test: xast.NameT(q.Prefix, q.Local), Abbrev: true}))
+					}
+				}
+				for _, e := range exprs {
+					src := xast.String(e)
+					res, err := ExecStr(ww.m.Root, src, ww.opts...)
+					if ns, ok := res.(xsel.NodeSet); err == nil && ok {
+						tasks = append(tasks, task{ww, src, append([]xsel.Cursor{}, ns...)})
+					}
+				}
+			}
+			var mu sync.Mutex
+			var bad []string
+			var wg sync.WaitGroup
+			const workers, rounds = 8, 60
+			for wk := 0; wk < workers; wk++ {
+				wg.Add(1)
+				go func(wk int) {
+					defer wg.Done()
+					lg := rng.New(uint64(idx), fmt.Sprintf("c03conc/%d", wk))
+					for k := 0; k < rounds; k++ {
+						t := tasks[lg.Intn(len(tasks))]
+						res, err := ExecStr(t.w.m.Root, t.src, t.w.opts...)
+						msg := ""
+						ns, ok := res.(xsel.NodeSet)
+						switch {
+						case err != nil || !ok:
+							msg = fmt.Sprintf("%s failed while other documents were being queried: %v", t.src, errStr(err))
+						default:
+							if _, nerr := t.w.m.Nodes(ns); nerr != nil {
+								msg = fmt.Sprintf("%s while other documents were being queried: %v", t.src, nerr)
+							} else if len(ns) != len(t.want) {
+								msg = fmt.Sprintf("%s returned %d nodes while other documents were being queried, %d alone", t.src, len(ns), len(t.want))
+							} else {
+								for i := range ns {
+									if ns[i] != t.want[i] {
+										msg = fmt.Sprintf("%s: node %d differs from the result obtained alone", t.src, i)
+										break
+									}
+								}
+							}
+						}
+						if msg != "" {
+							mu.Lock()
+							bad = append(bad, msg)
+							mu.Unlock()
+							return
+						}
+					}
+				}(wk)
+			}
+			wg.Wait()
+			r.Eval(workers * rounds)
+			r.Count("queries_while_other_documents_are_queried", workers*rounds)
+			r.Sig(shape+"|concurrent-documents|"+d2.Shape(), true)
+			if len(bad) > 0 {
+				r.Violate("other-document/concurrent", map[string]any{"case": idx, "what": bad[0], "document": d.Dump(), "other_document": d2.Dump()})
+			}
+		}
 	}
 	// unions and their laws
 	operand := func() xast.Expr {
